@@ -64,3 +64,7 @@ package transport
 //@ func (*connHandshaker).Close
 //@   loop 1 complete
 //@   ensures h.closed && len(h.doneq) == 0
+//@
+//@ func (*connHandshaker).Close
+//@   loop 2 ensures called_since("loop2:head", "Close") || isnil(item.c)
+//@   loop 2 ensures len(h.doneq) == len(at("loop2:head", h.doneq)) - 1
